@@ -97,6 +97,18 @@ pub fn name_of(p: &str) -> String {
 pub type Content = BTreeMap<String, Option<Vec<u8>>>;
 
 pub fn random_bytes(rng: &mut Rng) -> Vec<u8> {
+    if rng.chance(1, 14) {
+        // VALID UTF-8 whose multi-byte characters straddle the 8 KiB chunk boundary (and 16 KiB): what
+        // read_to_string must return whole, however the bytes are fetched
+        let mut v = vec![b'x'; 8191 - rng.below(2)];
+        v.extend_from_slice("é日".as_bytes());
+        if rng.chance(1, 2) {
+            v.extend(std::iter::repeat(b'y').take(8187));
+            v.extend_from_slice("ü".as_bytes());
+        }
+        v.extend_from_slice(b"tail");
+        return v;
+    }
     let n = match rng.below(10) {
         0 => 0,
         1 => 1,
@@ -655,6 +667,13 @@ pub fn gen_op(rng: &mut Rng, ts: &TreeSpec, snap: &BTreeMap<String, Obs>, cfg: &
         if cfg.overlay_upper.is_some() && name == "remove_file" && t == 'D' {
             continue; // O3
         }
+        // C03 / C13 (unrestricted domain): file transfers are aimed at a NON-EMPTY DIRECTORY now and then
+        let (p, t) = if matches!(name, "copy_file" | "move_file") && matches!(ts.prop.as_str(), "C03" | "C13") && rng.chance(1, 3) {
+            let dirs: Vec<&str> = uni.iter().cloned().filter(|q| !q.is_empty() && typ_of(snap, q) == 'D' && has_child(q)).collect();
+            if dirs.is_empty() { (p, t) } else { (rng.pick(&dirs[..]).to_string(), 'D') }
+        } else {
+            (p, t)
+        };
         let mut op = Op { name, path: p.clone(), bytes: None, dest: None, time: None };
         match name {
             "write" | "append" => op.bytes = Some(random_bytes(rng)),
@@ -675,7 +694,7 @@ pub fn gen_op(rng: &mut Rng, ts: &TreeSpec, snap: &BTreeMap<String, Obs>, cfg: &
                     // file calls on directories"): there a transfer whose source exists with the WRONG type is
                     // generated too (move_file / copy_file of a directory, copy_dir / move_dir of a file);
                     // the other properties leave such transfers unspecified
-                    let unrestricted = matches!(ts.prop.as_str(), "C03" | "C13") && t != 'A' && rng.chance(1, 2);
+                    let unrestricted = matches!(ts.prop.as_str(), "C03" | "C13") && t != 'A' && rng.chance(3, 4);
                     if !unrestricted && !(ts.wrong_type_calls && t == 'A') && t != 'A' {
                         continue;
                     }
@@ -685,7 +704,9 @@ pub fn gen_op(rng: &mut Rng, ts: &TreeSpec, snap: &BTreeMap<String, Obs>, cfg: &
                     }
                     // missing source: outside C11's statement too (copy_dir creates the
                     // destination first); keep it rare and only for the file transfers
-                    if dir_op || rng.chance(3, 4) {
+                    // (C02's lock-step comparison of the two backends has no such reservation: whatever a
+                    // failed copy_dir / move_dir of a missing source leaves behind, both must leave the same)
+                    if (dir_op && !(ts.prop == "C02" && rng.chance(1, 2))) || (!dir_op && rng.chance(3, 4)) {
                         continue;
                     }
                 }
@@ -699,6 +720,11 @@ pub fn gen_op(rng: &mut Rng, ts: &TreeSpec, snap: &BTreeMap<String, Obs>, cfg: &
                 let common: [i128; 12] = [0, 1, -1, S, 86_400 * S, 1_000_000_000 * S, 1_234_567_890 * S + 123_456_789, 999_999_999 * S + 999_999_999, -S - 1, -86_400 * S - S / 2, -2_000_000_000 * S + 7, 14_000_000_000 * S + 250_000_000];
                 let far: [i128; 3] = [100_000_000_000 * S + 5, -100_000_000_000 * S - 5, -(S / 4)];
                 op.time = Some(if !cfg.name.contains("phys") && rng.chance(1, 5) { *rng.pick(&far[..]) } else { *rng.pick(&common[..]) });
+                // often one of two fixed values, so that one entry gets the SAME value in two different fields
+                // (set earlier in another field): the fields are independent, equal values must not confuse a setter
+                if rng.chance(1, 3) {
+                    op.time = Some(*rng.pick(&[86_400 * S, 1_234_567_890 * S + 123_456_789][..]));
+                }
             }
             _ => {}
         }
@@ -760,6 +786,7 @@ pub fn run_impl(world: &mut RWorld, cfg: Cfg, ts: &TreeSpec, rng: &mut Rng, n_op
     let total = fixed_ops.as_ref().map(|v| v.len()).unwrap_or(n_ops);
     let mut handle_open = false;
     let mut handle_path = String::new();
+    let mut follow_up: Option<Op> = None;
     for i in 0..total {
         let op = match &fixed_ops {
             Some(v) => v[i].clone(),
@@ -810,8 +837,21 @@ pub fn run_impl(world: &mut RWorld, cfg: Cfg, ts: &TreeSpec, rng: &mut Rng, n_op
                 } else if handle_open && rng.chance(1, 4) {
                     handle_open = false;
                     Op { name: "hdrop", path: String::new(), bytes: None, dest: None, time: None }
+                } else if let Some(f) = follow_up.take() {
+                    f
                 } else {
-                    gen_op(rng, ts, &snap, &cfg)
+                    let g = gen_op(rng, ts, &snap, &cfg);
+                    // a setter is often followed by the setter of ANOTHER field on the same entry with the
+                    // SAME value: the fields are independent, equal values in two fields must not confuse it
+                    if matches!(g.name, "set_mtime" | "set_atime" | "set_ctime") && rng.chance(1, 2) {
+                        let other = match g.name {
+                            "set_mtime" => "set_atime",
+                            "set_atime" => "set_mtime",
+                            _ => *rng.pick(&["set_mtime", "set_atime"][..]),
+                        };
+                        follow_up = Some(Op { name: other, path: g.path.clone(), bytes: None, dest: None, time: g.time });
+                    }
+                    g
                 }
             }
         };
